@@ -15,9 +15,11 @@ from .. import sx
 from ..impl import run_impl
 from ..model import run_model
 from . import _de
+from . import _c20_gen
 from ._de import fr, qmat, mat_close
 
 ASSUMPTIONS = [
+    _c20_gen.ASSUMPTION,
     'exact-arithmetic model over Qc; implementation floats converted to exact rationals; tolerance 1e-11 for matrix entries',
     'np.linalg.lstsq is not modelled: its result is checked by the verified residual checker residual_ok '
     '(|L alpha - r|_i <= 1e-8 * max(max_i (sum_j |L_ij||alpha_j| + |r_i|), max_i (|A|^T|y|)_i / m)) against the model system '
@@ -1784,7 +1786,11 @@ def confirm_alone(chk, first_new, cases):
 def run(chk):
     import time
     t0 = time.time()
-    chk.coq_obligations()
+    # source-derived model: regenerate coq/Gen/RegressGen.v from the working tree BEFORE the obligations, so that the C20_gen_*
+    # theorems are re-checked against the entry computation of build_C_matrix as it is now
+    gen_info = _c20_gen.regenerate(chk)
+    chk.coq_obligations(extra_props=_c20_gen.EXTRA_PROPS)
+    gen_problem = _c20_gen.diagnose(chk, gen_info)
     chk.extra['seconds_coq_obligations_incl_waiting_for_the_build_lock'] = round(time.time() - t0, 1)
     rng = chk.rng
     q = chk.quick
@@ -1810,6 +1816,7 @@ def run(chk):
     process(chk, cases)
     shrink(chk, nv0)
     confirm_alone(chk, nv0, cases)
+    _c20_gen.finish(chk, gen_info, gen_problem)
 
 
 def replay(chk, rep):
